@@ -1042,44 +1042,66 @@ func c08OrderedSet(c *Ctx, f *ssa.Function) {
 // the index (and nil when there is none).
 func c08Lookup(c *Ctx, f *ssa.Function, field string) {
 	what := f.Name() + " returns s." + field + "[key].vals when the key is present"
-	ok := false
+	// per value that may be returned (over all returns): the vals of the entry
+	// found by a comma-ok lookup in the right index, on a path where that
+	// lookup succeeded; nil on a path where it failed
+	fs := core.Facts(f)
+	gotNil, gotVals, bad := false, false, ""
 	for _, ret := range core.Returns(f) {
-		phi, isPhi := ret.Results[0].(*ssa.Phi)
-		if !isPhi {
-			continue
-		}
-		gotNil, gotVals := false, false
-		for i, e := range phi.Edges {
-			if core.IsNilConst(e) {
-				gotNil = true
+		for _, lf := range fs.Leaves(ret.Results[0], ret) {
+			okFact := func(lk ssa.Value) (found, known bool) {
+				for _, g := range lf.Facts {
+					cond, truth := core.StripNot(g.Cond, g.Truth)
+					if ce, isCE := cond.(*ssa.Extract); isCE && ce.Tuple == lk && ce.Index == 1 {
+						return truth, true
+					}
+				}
+				return false, false
+			}
+			if core.IsNilConst(lf.V) {
+				// some lookup in the index failed on this path
+				for _, g := range lf.Facts {
+					cond, truth := core.StripNot(g.Cond, g.Truth)
+					if ce, isCE := cond.(*ssa.Extract); isCE && ce.Index == 1 && !truth {
+						if lk, isLk := ce.Tuple.(*ssa.Lookup); isLk {
+							if n2, b2, isF2 := core.IsLoadOfField(lk.X); isF2 && n2 == field && b2 == ssa.Value(f.Params[0]) {
+								gotNil = true
+							}
+						}
+					}
+				}
+				if !gotNil {
+					bad = "nil is returned on a path where the lookup did not fail"
+				}
 				continue
 			}
-			name, base, isF := core.IsLoadOfField(e)
+			name, base, isF := core.IsLoadOfField(lf.V)
 			if !isF || name != "vals" {
+				bad = "returns " + core.Describe(lf.V)
 				continue
 			}
 			ex, isEx := base.(*ssa.Extract)
 			if !isEx || ex.Index != 0 {
+				bad = "vals of something that is not a comma-ok lookup result"
 				continue
 			}
 			lk, isLk := ex.Tuple.(*ssa.Lookup)
 			if !isLk {
+				bad = "vals of something that is not a map lookup"
 				continue
 			}
 			if n2, b2, isF2 := core.IsLoadOfField(lk.X); !isF2 || n2 != field || b2 != ssa.Value(f.Params[0]) {
+				bad = "lookup in another map"
 				continue
 			}
-			// taken under the comma-ok of that lookup
-			cond, truth, found := edgeCondition(phi.Block().Preds[i], phi.Block())
-			if found {
-				if ce, isCE := cond.(*ssa.Extract); isCE && ce.Tuple == ex.Tuple && ce.Index == 1 && truth {
-					gotVals = true
-				}
+			if found, known := okFact(lk); known && found {
+				gotVals = true
+			} else {
+				bad = "the entry's values are used on a path where the lookup is not known to have succeeded"
 			}
 		}
-		ok = gotNil && gotVals
 	}
-	c.check(ok, "C08.storage.index", f, what, nil, "the answer is the first-seen ordered list stored for that key, nil otherwise")
+	c.check(gotNil && gotVals && bad == "", "C08.storage.index", f, what, nil, "the answer is the first-seen ordered list stored for that key, nil otherwise. "+bad)
 }
 
 // guardedByCall: in runs only where the boolean call result has the truth value.
@@ -1185,23 +1207,32 @@ func c08StorageAdd(c *Ctx, f *ssa.Function) {
 			// receiver: s.names[rec.Addr] (existing or freshly stored under the same key)
 			okRecv := true
 			for _, v := range flattenPhi(a.Call.Args[0]) {
+				if ex, isEx := v.(*ssa.Extract); isEx && ex.Index == 0 {
+					if lk, isLk := ex.Tuple.(*ssa.Lookup); isLk && lk.CommaOk {
+						v = lk
+					}
+				}
 				switch x := v.(type) {
 				case *ssa.Lookup:
 					name, _, isF := core.IsLoadOfField(x.X)
 					kn, kb, isK := core.IsLoadOfField(x.Index)
 					okRecv = okRecv && isF && name == "names" && isK && kn == "Addr" && kb == rec
-				case *ssa.Alloc:
+				default:
+					// a fresh set (allocated here or by a module constructor) stored
+					// under the same key
+					_, isAlloc := v.(*ssa.Alloc)
+					if call, isCall := v.(*ssa.Call); isCall && call.Call.StaticCallee() != nil && core.InModule(call.Call.StaticCallee()) {
+						isAlloc = true
+					}
 					stored := false
-					for _, r := range core.Refs(x) {
-						if mu, ok := r.(*ssa.MapUpdate); ok && mu.Value == ssa.Value(x) {
+					for _, r := range core.Refs(v) {
+						if mu, ok := r.(*ssa.MapUpdate); ok && mu.Value == v {
 							kn, kb, isK := core.IsLoadOfField(mu.Key)
 							name, _, isF := core.IsLoadOfField(mu.Map)
 							stored = isK && kn == "Addr" && kb == rec && isF && name == "names"
 						}
 					}
-					okRecv = okRecv && stored
-				default:
-					okRecv = false
+					okRecv = okRecv && isAlloc && stored
 				}
 			}
 			c.check(okN && okRecv, "C08.storage.index", f, "s.names[rec.Addr].add(normalise(name), name)", a, "ByAddr keeps the original spelling, deduplicated case-insensitively")
@@ -1211,21 +1242,28 @@ func c08StorageAdd(c *Ctx, f *ssa.Function) {
 			okA := isK && isV && kn == "Addr" && vn == "Addr" && kb == rec && vb == rec
 			okRecv := norm != nil
 			for _, v := range flattenPhi(a.Call.Args[0]) {
+				if ex, isEx := v.(*ssa.Extract); isEx && ex.Index == 0 {
+					if lk, isLk := ex.Tuple.(*ssa.Lookup); isLk && lk.CommaOk {
+						v = lk
+					}
+				}
 				switch x := v.(type) {
 				case *ssa.Lookup:
 					name, _, isF := core.IsLoadOfField(x.X)
 					okRecv = okRecv && isF && name == "addrs" && x.Index == ssa.Value(norm)
-				case *ssa.Alloc:
+				default:
+					_, isAlloc := v.(*ssa.Alloc)
+					if call, isCall := v.(*ssa.Call); isCall && call.Call.StaticCallee() != nil && core.InModule(call.Call.StaticCallee()) {
+						isAlloc = true
+					}
 					stored := false
-					for _, r := range core.Refs(x) {
-						if mu, ok := r.(*ssa.MapUpdate); ok && mu.Value == ssa.Value(x) {
+					for _, r := range core.Refs(v) {
+						if mu, ok := r.(*ssa.MapUpdate); ok && mu.Value == v {
 							name, _, isF := core.IsLoadOfField(mu.Map)
 							stored = isF && name == "addrs" && mu.Key == ssa.Value(norm)
 						}
 					}
-					okRecv = okRecv && stored
-				default:
-					okRecv = false
+					okRecv = okRecv && isAlloc && stored
 				}
 			}
 			c.check(okA && okRecv, "C08.storage.index", f, "s.addrs[normalise(name)].add(rec.Addr, rec.Addr)", a, "the name index is keyed by the same normalised name as the dedup key of the address index")
